@@ -451,6 +451,23 @@ template<bool AL, bool PO> using CfgTiny = ShadowPolicy<0x1000, 0x1000, 0x1000, 
 template<bool AL, bool PO> using CfgOdd = ShadowPolicy<0x1000, 0x3000, 0x4000, 8, AL, PO>;      // slab size not a power of two (only a page multiple <= superblock size is required)
 template<bool AL, bool PO> using CfgOddBig = ShadowPolicy<0x1000, 0x30000, 0x40000, 13, AL, PO>;
 
+// a policy that also offers the optional allocation-trace hooks (enable_trace / output_trace / walk_stack): the pool then compiles
+// its tracing code in; every record handed to output_trace is checked for its framing
+template<typename Base>
+struct TracePolicy : Base {
+	using Base::Base;
+	bool enable_trace() { return (++n_enable % 5) != 0; } // mostly on, sometimes off
+	void output_trace(void *buffer, size_t n) {
+		auto *b = (const uint8_t *)buffer;
+		bool ok = n >= 1 + 8 + 8 && (b[0] == 'a' || b[0] == 'f');
+		for(int i = 0; ok && i < 8; i++) if(b[n - 8 + i] != 0xA5) ok = false;
+		if(!ok) violation(g_prop + ":slab:trace-record", "output_trace() received a record without the documented framing (type byte, pointer, [size], frames, 0xA5 terminator)");
+		count("policy_trace_records");
+	}
+	template<typename F> void walk_stack(F f) { for(uintptr_t i = 0; i < 20; i++) f(0x400000 + i * 16); } // more frames than the pool records
+	uint64_t n_enable = 0;
+};
+
 template<typename Policy, typename Mutex>
 static void run_cfg(const char *name, uint64_t ncases, unsigned nops) {
 	std::string mode = std::string("rand:") + name;
@@ -556,10 +573,12 @@ int main(int argc, char **argv) {
 		run_cfg<CfgOdd<false, true>, SM>("odd-slab/unaligned/poison", n * 2, ops);
 		run_cfg<CfgOdd<true, false>, SM>("odd-slab/aligned/plain", n, ops);
 		run_cfg<CfgOddBig<true, true>, SM>("odd-slab-192K/aligned/poison", n / 2 + 1, ops);
+		run_cfg<TracePolicy<CfgSmall<false, true>>, SM>("small/unaligned/poison/trace-hooks", n, ops);
 		run_cfg<CfgTiny<false, true>, SM>("tiny/unaligned/poison", n * 3, ops);
 		run_cfg<CfgTiny<true, false>, SM>("tiny/aligned/plain", n * 3, ops);
 		exhaustive<CfgTiny<false, true>, SM>("exh:tiny/unaligned/poison", t ? 8 : 6);
 		exhaustive<CfgTiny<true, false>, SM>("exh:tiny/aligned/plain", t ? 7 : 5);
+		if(g_prop == "C02") fault_enum<CfgSmall<false, true>, SM>("small/unaligned/poison", 1001, 400, false); // "frees the old block only when it moved": also when the move failed
 		sample("rand:small/unaligned/poison: 1500 ops (allocate boundary sizes 0,1,class±1,max_bucket±1,page multiples±1,superblock multiples; free/deallocate(any admissible size)/realloc shrink,grow,cross-class,to 0; null ops) with full oracle after each call");
 	} else {
 		fault_enum<CfgSmall<false, true>, SM>("small/unaligned/poison", 1001, 400, t);
@@ -569,6 +588,7 @@ int main(int argc, char **argv) {
 		fault_enum<CfgSmall<true, true>, SM>("small/aligned/poison/fill", 1008, 900, t, true);
 		fault_enum<CfgDefault<true, true>, SM>("default/aligned/poison", 1004, 300, t);
 		fault_enum<CfgOdd<false, true>, SM>("odd-slab/unaligned/poison", 1009, 400, t);
+		fault_enum<TracePolicy<CfgSmall<true, true>>, SM>("small/aligned/poison/trace-hooks", 1010, 400, t);
 		if(t) { fault_enum<CfgBigSb<false, true>, SM>("bigsb/unaligned/poison", 1005, 400, t); fault_enum<CfgTiny<true, false>, SM>("tiny/aligned/plain", 1006, 400, t); }
 		sample("fault:small/unaligned/poison: a fixed 400-op history; run once to count map() attempts M, then re-run failing attempt i for every i (thorough: every pair and bursts of 3); all C01-C03 oracles stay armed, no mutex may stay held, later requests must succeed");
 	}
